@@ -23,9 +23,12 @@ fn try_run_builtin_in_subprocess(
     sh: &mut Shell,
     cl: &CommandLine,
     idx_cmd: usize,
-    capture: bool,
+    _capture: bool,
 ) -> Option<i32> {
-    if let Some(cr) = try_run_builtin(sh, cl, idx_cmd, capture) {
+    // in the forked child stdout and stderr already are the pipes of the
+    // substitution (or of the next stage): the builtin writes to them, what
+    // it would keep in its own result for the caller dies with the child
+    if let Some(cr) = try_run_builtin(sh, cl, idx_cmd, false) {
         return Some(cr.status);
     }
     None
